@@ -1,6 +1,7 @@
 package exec
 
 import (
+	"errors"
 	"fmt"
 	"reflect"
 	"strconv"
@@ -74,6 +75,39 @@ func (s *Slots) Peer() interface{}               { return s.Obj }
 func (s *Slots) Peers() []interface{}            { return s.Objs }
 func (s *Slots) Count() (int, error)             { return len(s.Objs), nil }
 
+// Risky fails depending on its argument: "fail..." gives no value and an error, "both..." a value
+// together with an error. It is what lets a reflection backed object fail like a Resolver can.
+func (s *Slots) Risky(str string) (interface{}, error) {
+	switch {
+	case strings.HasPrefix(str, "fail"):
+		return nil, errRisky
+	case strings.HasPrefix(str, "both"):
+		return "risky:" + str, errRisky
+	}
+	return "risky:" + str, nil
+}
+
+var errRisky = errors.New("risky failed")
+
+// UniverseFault is the single definition of how the computed fields fail.
+func UniverseFault(n *hx.Node, fd *hx.Field, args map[string]interface{}) string {
+	slot := strings.ToLower(fd.Name)
+	if universeSlotOf != nil {
+		slot = universeSlotOf(n.Type, fd.Name)
+	}
+	if slot != "risky" {
+		return ""
+	}
+	str, _ := args["s"].(string)
+	switch {
+	case strings.HasPrefix(str, "fail"):
+		return "err"
+	case strings.HasPrefix(str, "both"):
+		return "valerr"
+	}
+	return ""
+}
+
 // The universe of named Go types.
 type Alpha struct{ Slots }
 type Beta struct{ Slots }
@@ -81,13 +115,17 @@ type Gamma struct{ Slots }
 type Delta struct{ Slots }
 type UQuery struct{ Slots }
 
+// AlphaBeta: a Go type whose name begins like one and ends like another universe type (bindings
+// by @go and by name compare type names).
+type AlphaBeta struct{ Slots }
+
 var universeTypes = map[string]reflect.Type{
 	"Alpha": reflect.TypeOf(Alpha{}), "Beta": reflect.TypeOf(Beta{}), "Gamma": reflect.TypeOf(Gamma{}),
-	"Delta": reflect.TypeOf(Delta{}), "UQuery": reflect.TypeOf(UQuery{}), "Vee": reflect.TypeOf(Vee{}),
+	"Delta": reflect.TypeOf(Delta{}), "AlphaBeta": reflect.TypeOf(AlphaBeta{}), "UQuery": reflect.TypeOf(UQuery{}), "Vee": reflect.TypeOf(Vee{}),
 }
 
 // UniverseGoNames lists the object-capable Go types.
-var UniverseGoNames = []string{"Alpha", "Beta", "Gamma", "Delta"}
+var UniverseGoNames = []string{"Alpha", "Beta", "Gamma", "Delta", "AlphaBeta"}
 
 func newUniverseValue(goType string, _ bool) reflect.Value {
 	t, ok := universeTypes[goType]
@@ -109,7 +147,7 @@ func slotFor(c *Case, typeName, field string) string {
 }
 
 // computedSlots are backed by methods; the rest by struct fields.
-var computedSlots = map[string]bool{"echo": true, "pick": true, "greet": true, "flip": true, "swap": true, "peer": true, "peers": true, "count": true}
+var computedSlots = map[string]bool{"echo": true, "pick": true, "greet": true, "flip": true, "swap": true, "peer": true, "peers": true, "count": true, "risky": true}
 
 // universeSlotOf is set per world so that UniverseCompute can translate renamed fields.
 var universeSlotOf func(typeName, field string) string
@@ -142,6 +180,8 @@ func UniverseCompute(n *hx.Node, fd *hx.Field, args map[string]interface{}) (hx.
 		return n.F["__objs"], true
 	case "count":
 		return hx.Int(len(n.F["__objs"].L)), true
+	case "risky":
+		return hx.Str("risky:" + str), true
 	}
 	return hx.Val{}, false
 }
@@ -264,6 +304,10 @@ type RDelta struct {
 	Slots
 	rn *RNode
 }
+type RAlphaBeta struct {
+	Slots
+	rn *RNode
+}
 
 func (r *RAlpha) Resolve(f *ggql.Field, a map[string]interface{}) (interface{}, error) {
 	return r.rn.Resolve(f, a)
@@ -278,7 +322,12 @@ func (r *RDelta) Resolve(f *ggql.Field, a map[string]interface{}) (interface{}, 
 	return r.rn.Resolve(f, a)
 }
 
+func (r *RAlphaBeta) Resolve(f *ggql.Field, a map[string]interface{}) (interface{}, error) {
+	return r.rn.Resolve(f, a)
+}
+
 func init() {
+	universeTypes["RAlphaBeta"] = reflect.TypeOf(RAlphaBeta{})
 	universeTypes["RAlpha"] = reflect.TypeOf(RAlpha{})
 	universeTypes["RBeta"] = reflect.TypeOf(RBeta{})
 	universeTypes["RGamma"] = reflect.TypeOf(RGamma{})
@@ -305,6 +354,8 @@ func (w *World) newUniverseResolver(goType string, id int) reflect.Value {
 	case *RGamma:
 		t.rn = rn
 	case *RDelta:
+		t.rn = rn
+	case *RAlphaBeta:
 		t.rn = rn
 	}
 	return pv
